@@ -1,6 +1,6 @@
 (* C06 — Reads never wait for writers: the statements. Each is closed by `exact`. *)
 From Coq Require Import List Bool Arith NArith.
-From FoxC06 Require Import Graph Reach GenCallGraph Entries GraphProofs Protocol ProtocolProofs.
+From FoxC06 Require Import Graph Reach GenCallGraph Entries Skeleton GraphProofs Protocol ProtocolProofs.
 Import ListNotations.
 
 (* ===== 1. the reachability procedure is correct, for ANY finite graph ===== *)
@@ -51,7 +51,8 @@ Print Assumptions reads_check_computed.
    Router.mu, a channel operation, a select, a Cond.Wait or a WaitGroup.Wait *)
 Theorem reads_never_take_writer_lock : forall e, In e read_entries ->
   ~ exists s l, Reachable graph e s /\ In l (leaves_at graph s) /\
-                (l = Acquire lock_Router_mu \/ l = ChanOp \/ l = Select \/ l = CondWait \/ l = WaitGroupWait).
+                (l = Acquire lock_Router_mu \/ l = ChanOp \/ l = Select \/ l = CondWait \/ l = WaitGroupWait \/
+                 l = Sleep \/ l = SpinLoad).
 Proof. exact GraphProofs.reads_never_take_writer_lock. Qed.
 Print Assumptions reads_never_take_writer_lock.
 
@@ -67,6 +68,25 @@ Theorem lock_sets_disjoint : forall k,
      (exists e, In e read_entries /\ CanBlockOn graph (fun l => l = Acquire k) e)).
 Proof. exact GraphProofs.lock_sets_disjoint. Qed.
 Print Assumptions lock_sets_disjoint.
+
+(* the shared-state skeleton extracted from the source is the pinned one: the inventory of
+   synchronisation objects, the fields through which readers and writers meet, the loop / atomic
+   shape of every Router and Txn method (a new flag polled by readers, a new loop in ServeHTTP,
+   a new counter maintained by txnWith re-open this obligation) *)
+Example skeleton_pinned :
+  sync_inventory = expected_sync_inventory /\
+  map fname shared_now = expected_shared /\
+  shapes_eqb shape_table expected_shapes = true.
+Proof. exact (conj (strs_eqb_eq _ _ (proj1 skeleton_check))
+             (conj (strs_eqb_eq _ _ (proj1 (proj2 skeleton_check))) (proj2 (proj2 skeleton_check)))). Qed.
+Print Assumptions skeleton_pinned.
+
+Theorem readers_and_writers_meet_only_on_pinned_fields : forall k,
+  (exists e s f, In e write_entries /\ Reachable graph e s /\ lookup graph (fst s) = Some f /\ In k (f_writes f)) ->
+  (exists e s f, In e read_entries /\ Reachable graph e s /\ lookup graph (fst s) = Some f /\ In k (f_reads f)) ->
+  In (fname k) expected_shared.
+Proof. exact shared_state_is_pinned. Qed.
+Print Assumptions readers_and_writers_meet_only_on_pinned_fields.
 
 (* non-vacuity: the graph sees the writer lock; the guards are what separates Txn(false) from Txn(true) *)
 Theorem writers_take_writer_lock : forall e, In e locking_write_entries ->
